@@ -181,7 +181,8 @@ pub mod ffi {
             s.iter().map(|x| *x as u32).sum::<u32>() + 1000 * s.len() as u32
         }
         pub fn take_strs(&self, v: &[DiplomatStrSlice]) -> u32 {
-            v.iter().map(|s| s.len() as u32 + 1).sum()
+            // reads every byte, like user code that parses the strings would
+            v.iter().fold(0u32, |acc, s| s.iter().fold(acc.wrapping_add(s.len() as u32 + 1), |a, b| a.wrapping_add(*b as u32)))
         }
         pub fn sum(&self, v: &[u32]) -> u32 {
             v.iter().sum()
@@ -207,6 +208,11 @@ pub mod ffi {
             } else {
                 Err(Box::new(ErrTok { t: Token::new() }))
             }
+        }
+        /// a validated `&str` next to a by-value callback: bindings that validate UTF-8 on their
+        /// side return early while the callback argument is in flight
+        pub fn greet(&self, s: &str, f: impl Fn(u32) -> u32) -> u32 {
+            f(s.len() as u32)
         }
         pub fn hold(&mut self, f: impl Fn(u32) -> u32 + 'static) {
             self.held = Some(Box::new(f));
